@@ -157,9 +157,9 @@ def cmds : List (String × Cmd) := sepAliases ++ nsAliases ++ [
             | [a, b, c, k, d, e, g, k2] =>
               let pb : CMYK := ⟨a, b, c, k⟩; let ps : CMYK := ⟨d, e, g, k2⟩
               let cb := cmyk2rgb pb; let cs := cmyk2rgb ps
-              if hasZero (nonSeparableDens fn cb cs ++ rgb2cmyDens ps.k) then none
+              if hasZero (nonSeparableDens fn cb cs ++ rgb2cmyDens (match kSelOf fn with | some .b => pb.k | _ => ps.k)) then none
               else
-                let o := nonSepCMYK .s f pb ps
+                let o := (match nonSeparableCMYK fn with | some g => g pb ps | none => nonSepCMYK .s f pb ps)
                 some (ratStr o.c ++ "," ++ ratStr o.m ++ "," ++ ratStr o.y ++ "," ++ ratStr o.k
                       ++ ";" ++ nsMargin fn cb cs true)
             | _ => none)
